@@ -34,6 +34,7 @@ RULE = ('Each shard draws scenarios (extinction law, n filters with pairwise dif
 RULE += (' ' + 'Also varied: a ~1 mJy flag-1 point whose flag-4 twin carries exactly 0.0; fitters built without the bands flagged 0 (also with remove_resolved=True).')
 RULE += (' ' + 'For a third of the vectors the Source object that was fitted is edited in place (one band switched to flag 0, values of ignored bands replaced) and fitted again; it must fit like a fresh source with those flags.')
 RULE += (' ' + 'A quarter of the scenarios use whole-number photometry passed as integer arrays (the ignored values of one variant are non-integral, which changes the dtype of the whole array).')
+RULE += (' ' + 'The replacement values of ignored points include ordinary fluxes with NaN / inf / 1e200 / 0 errors and NaN fluxes.')
 ASSUMPTIONS = [
     'singular vectors (<2 fitted points in 2-D / none in 3-D) are enumerated but only n_data is asserted on them',
     'paired runs are compared per model name with 1e-9 relative tolerance (+1e-13*cond on parameters): a legal '
@@ -71,7 +72,11 @@ def scenario(draw, n, mode):
             'lim': [10. ** (lf + draw(st.floats(-1.5, 1.5, allow_nan=False))),
                     draw(st.sampled_from([0., 1., 0.5, 0.9, 0.05]))],
             'ignA': [draw(gen.ignored_values), draw(gen.ignored_values)],
-            'ignB': [draw(gen.ignored_values), draw(gen.ignored_values)],
+            # (a point kept for plotting only may have no error estimate at all, or a placeholder no arithmetic survives)
+            'ignB': draw(st.one_of(st.tuples(gen.ignored_values, gen.ignored_values).map(list),
+                                   st.tuples(gen.ignored_values, gen.ignored_values).map(list),
+                                   st.tuples(gen.logfloat(1e-3, 1e3), st.sampled_from([float('nan'), float('inf'), 1e200, 0.])).map(list),
+                                   st.just([float('nan'), float('nan')]))),
         })
     int_pools = draw(st.integers(0, 3)) == 0
     if int_pools:
@@ -249,12 +254,15 @@ class Env(object):
             else:
                 scale = max(abs(c1), abs(c2), 1.) if max(abs(c1), abs(c2)) < 1e29 else 1e30
                 ptol = 1e-9
-            if abs(c1 - c2) > 1e-9 * scale + 1e-9 * max(abs(c1), abs(c2)):
+            if any((x != x) != (y != y) for x, y in ((c1, c2), (av1, av2), (sc1, sc2))):
+                fail('%s: model %s has (av, sc, chi2) = (%r, %r, %r) vs (%r, %r, %r): one of them is not a number' % (
+                    what, name, av1, sc1, c1, av2, sc2, c2), sig)
+            if not (abs(c1 - c2) <= 1e-9 * scale + 1e-9 * max(abs(c1), abs(c2))):
                 fail('%s: chi2 of model %s differs: %r vs %r' % (what, name, c1, c2), sig)
             if self.sc['mode'] == '3d' and sc1 != sc2:
                 # a different grid distance is acceptable only on a chi^2 tie, which the chi2 comparison established
                 continue
-            if abs(av1 - av2) > ptol * (1 + abs(av1)) or abs(sc1 - sc2) > ptol * (1 + abs(sc1)):
+            if not (abs(av1 - av2) <= ptol * (1 + abs(av1))) or not (abs(sc1 - sc2) <= ptol * (1 + abs(sc1))):
                 fail('%s: (av, sc) of model %s differs: (%r, %r) vs (%r, %r)' % (what, name, av1, sc1, av2, sc2), sig)
 
 
@@ -352,8 +360,8 @@ def check_vector(env, vec, labels):
             for m, name in enumerate(sc['grid']['names']):
                 ref = refs[m]
                 ptol = 1e-9 + 1e-13 * ref.cond
-                if abs(ra[name][0] - rb[name][0]) > ptol * (1 + abs(ra[name][0])) or \
-                        abs(ra[name][1] - rb[name][1]) > ptol * (1 + abs(ra[name][1])):
+                if not (abs(ra[name][0] - rb[name][0]) <= ptol * (1 + abs(ra[name][0]))) or \
+                        not (abs(ra[name][1] - rb[name][1]) <= ptol * (1 + abs(ra[name][1]))):
                     fail('flags %r model %s: a limit changed the least-squares solution: (%r, %r) vs (%r, %r) without it' % (
                         vec, name, ra[name][0], ra[name][1], rb[name][0], rb[name][1]), 'c03:limit_enters_solution')
                 sure, maybe = ref.penalties(ra[name][0], ra[name][1])
